@@ -93,6 +93,8 @@ SbWriteFails(s, e) ==
                ("chunked" \in DOMAIN e /\ s.framing # "unknown") => (e.chunked = (s.bleft = -1)))
   \cup FClause("C09", "ready to advance although declared body bytes are still to be sent",
                (s.bleft >= 0 /\ BodyLeftAfter(s, e) > 0) => ~e.ready)
+  \cup FClause("C09", "a chunked body became ready to advance by a write that cannot have emitted the terminator (not an accepted empty write with room for it)",
+               (s.bleft = -1 /\ e.ready /\ ~s.ready) => (e.res = "ok" /\ e.inl = 0 /\ e.outl >= 5))
 
 \* consume_direct_write(): e = [amt, res, ready]; the bytes count as sent
 SbDirectFails(s, e) ==
